@@ -15,7 +15,7 @@
 extern "C" {
 // Non-inline and used, so the sanitizer runtime finds it (see brief: `extern "C" inline` is never emitted).
 __attribute__((used, visibility("default"))) const char *__asan_default_options() {
-    return "exitcode=77:detect_leaks=0:abort_on_error=0:symbolize=0:allocator_may_return_null=1:detect_stack_use_after_return=0:"
+    return "exitcode=77:quarantine_size_mb=16:detect_leaks=0:abort_on_error=0:symbolize=0:allocator_may_return_null=1:detect_stack_use_after_return=0:"
            "external_symbolizer_path=/usr/bin/llvm-symbolizer-14";
 }
 __attribute__((used, visibility("default"))) const char *__ubsan_default_options() {
